@@ -19,6 +19,8 @@ class Attr:
         self.name, self.ty, self.optional, self.inverse_for = name, ty, optional, inverse_for
         self.redecl_of = redecl_of          # `SELF\\<redecl_of>.<name> : ty` — redeclaration of an inherited attribute
         self.line = self.for_line = 0
+        self.bound = None                   # Expr: upper bound of the (aggregate) type, rendered in place of the `?` of `[1:?]`
+        self.expr = None                    # Expr: initialiser (the attribute is in the entity's `derives`)
 
 
 class Rule:
@@ -30,6 +32,7 @@ class Entity:
     def __init__(self, name):
         self.name, self.supers, self.subs_expr, self.attrs, self.rules = name, [], None, [], []
         self.uniques = []          # Unique(label, qual, attr): `label : attr;` / `label : SELF\\qual.attr;`
+        self.derives = []          # Attr with .expr: `name : INTEGER := <expr>;` of the DERIVE clause
         self.line = 0
         self.super_lines = []
 
@@ -45,9 +48,42 @@ class TypeDecl:
         self.rules = []            # WHERE rules of the type: Rule(label, "tcall", fn=…, argc=…)
 
 
+class Expr:
+    """an expression outside domain rules (DERIVE initialiser, aggregate bound, constant value, statement of a function body,
+    WHERE clause of a global RULE):  [fn(] refs…, literals… [)] [+ refs…]   — `refs` are bare identifiers"""
+
+    def __init__(self, label, fn=None, argc=0, refs=None):
+        self.label, self.fn, self.argc, self.refs, self.line = label, fn, argc, list(refs or []), 0
+
+    def text(self):
+        rest = self.refs
+        parts = []
+        if self.fn:
+            args = self.refs[:self.argc]
+            args += [str(i + 1) for i in range(self.argc - len(args))]
+            parts.append(f"{self.fn}({', '.join(args)})")
+            rest = self.refs[self.argc:]
+        parts += rest
+        return " + ".join(parts) if parts else "1"
+
+    def proto(self, out):
+        out.append(f"expr {self.label} {self.line}")
+        if self.fn:
+            out.append(f"call {self.fn} {self.argc}")
+        for r in self.refs:
+            out.append(f"bareattr {r}")
+
+
 class Func:
-    def __init__(self, name, nparams):
+    """FUNCTION (kind 'function'), global RULE ('rule': `locals_` = the entities it is FOR), CONSTANT ('constant': `body` = its
+    value).  `locals_`: local variables of a function; `body`: Expr list (statements `v0 := <expr>;` / WHERE clauses / the value)"""
+
+    def __init__(self, name, nparams, kind="function"):
         self.name, self.nparams, self.line = name, nparams, 0
+        self.kind, self.locals_, self.body = kind, [], []
+
+    def scope_names(self):
+        return [f"p{i}" for i in range(self.nparams)] + list(self.locals_)
 
 
 class SyntaxError_:
@@ -254,7 +290,81 @@ def gen_schema(rng, size=6, tag="", pre=""):
         e.attrs = [a for a in e.attrs if a.inverse_for is None] + [a for a in e.attrs if a.inverse_for is not None]
     # interleave entities with the other declarations a little
     s.decls += ents
+    add_expression_contexts(s, pre)
     return s
+
+
+def int_attrs_visible(s, e):
+    """INTEGER attributes a bare identifier inside `e` can denote: own and inherited explicit ones"""
+    out = [a.name for a in e.attrs if a.inverse_for is None and a.redecl_of is None and a.ty == ("S", "INTEGER")]
+    for an in sorted(_ancestors(s, e)):
+        x = s.find(an)
+        if isinstance(x, Entity):
+            out += [a.name for a in x.attrs if a.inverse_for is None and a.redecl_of is None and a.ty == ("S", "INTEGER")]
+    return sorted(set(out))
+
+
+def _mk_expr(rng, label, funcs, refs_pool, want_call=None):
+    """a valid expression over callable `funcs` and the identifiers of `refs_pool`"""
+    fn, argc = None, 0
+    if funcs and (want_call if want_call is not None else rng.random() < 0.5):
+        f = rng.choice(funcs)
+        fn, argc = f.name, f.nparams
+    k = rng.randint(0, min(2, len(refs_pool)))
+    refs = [rng.choice(refs_pool) for _ in range(k)] if refs_pool else []
+    if not fn and not refs and refs_pool:
+        refs = [rng.choice(refs_pool)]
+    return Expr(label, fn, argc, refs)
+
+
+def add_expression_contexts(s, pre=""):
+    """constants, function bodies, global rules, DERIVE initialisers and aggregate bounds — all valid; driven by a generator of
+    their own (seeded from the schema's names) so that the declarations produced by `gen_schema` stay what they were"""
+    import random
+    rng = random.Random("expr:" + "|".join(getattr(d, "name", "?") for d in s.decls))
+    funcs = [f for f in s.funcs() if f.kind == "function"]
+    # one CONSTANT block at the head of the schema: a literal, a call, earlier constants
+    consts = []
+    for i in range(rng.randint(0, 2)):
+        c = Func(f"{pre}c_{i}{rng.choice('rst')}", 0, kind="constant")
+        r = rng.random()
+        if r < 0.4:
+            c.body = []
+        else:
+            c.body = [_mk_expr(rng, "v", funcs, [x.name for x in consts], want_call=(r < 0.75))]
+        consts.append(c)
+    cn = [c.name for c in consts]
+    # function bodies: locals, statements calling functions (mutual recursion is fine) over parameters / locals / constants
+    for f in funcs:
+        if rng.random() < 0.6:
+            f.locals_ = [f"v{j}" for j in range(rng.randint(1, 2))]
+            pool = f.scope_names() + cn
+            f.body = [_mk_expr(rng, f"s{j}", funcs, pool) for j in range(rng.randint(1, 2))]
+    ents = s.entities()
+    # global rules
+    for i in range(rng.randint(0, 2) if ents else 0):
+        g = Func(f"{pre}gr_{i}{rng.choice('de')}", 0, kind="rule")
+        g.locals_ = [x.name for x in rng.sample(ents, min(len(ents), rng.randint(1, 2)))]
+        for j in range(rng.randint(1, 2)):
+            if rng.random() < 0.5:
+                g.body.append(Expr(f"w{j}", "SIZEOF", 1, [rng.choice(g.locals_)] + ([rng.choice(cn)] if cn and rng.random() < 0.5 else [])))
+            else:
+                g.body.append(_mk_expr(rng, f"w{j}", funcs, cn, want_call=True))
+        s.decls.append(g)
+    # DERIVE initialisers and aggregate bounds
+    for e in ents:
+        nums = int_attrs_visible(s, e)
+        pool = nums + cn
+        for j in range(rng.randint(0, 2) if rng.random() < 0.5 else 0):
+            a = Attr(f"d_{e.name}_{j}", ("S", "INTEGER"))
+            a.expr = _mk_expr(rng, a.name, funcs, pool)
+            e.derives.append(a)
+        if rng.random() < 0.35:
+            a = Attr(f"ab_{e.name}", ("A", rng.choice(["LIST [1:?] OF", "SET [1:?] OF", "BAG [1:?] OF"]), ("S", rng.choice(SIMPLE))))
+            a.bound = _mk_expr(rng, a.name, funcs, pool)
+            k = len([x for x in e.attrs if x.inverse_for is None])
+            e.attrs.insert(k, a)
+    s.decls[:0] = consts
 
 
 def render_into(s, out, proto):
@@ -280,9 +390,24 @@ def render_into(s, out, proto):
                 txt = it.old + (f" AS {it.new}" if it.new else "")
                 emit(("  (" if k == 0 else "   ") + txt + ("," if k + 1 < len(i.items) else ");"))
                 proto.append(f"item {it.old} {it.new or '-'} {it.line}")
-    for di, d in enumerate(s.decls):
+    is_const = lambda x: isinstance(x, Func) and x.kind == "constant"
+    order = [i for i, x in enumerate(s.decls) if is_const(x)] + [i for i, x in enumerate(s.decls) if not is_const(x)]
+    n_const = sum(1 for x in s.decls if is_const(x))
+    for pos, di in enumerate(order):
+        d = s.decls[di]
         drop = s.drop_semicolon if s.drop_semicolon and s.drop_semicolon[0] == di else None
-        if isinstance(d, TypeDecl):
+        if is_const(d):
+            if pos == 0:
+                emit("CONSTANT")
+            d.line = ln()
+            emit(f"  {d.name} : INTEGER := {d.body[0].text() if d.body else '7'};")
+            proto.append(f"alg constant {d.name} {d.line} 0")
+            for x in d.body:
+                x.line = d.line
+                x.proto(proto)
+            if pos + 1 == n_const:
+                emit("END_CONSTANT;")
+        elif isinstance(d, TypeDecl):
             d.line = ln()
             if d.kind == "ref":
                 emit(f"TYPE {d.name} = {ty_text(d.arg)};")
@@ -306,13 +431,36 @@ def render_into(s, out, proto):
                 proto.append(f"syntax schema {s.name} {ln()}")
             else:
                 emit("END_TYPE;")
+        elif isinstance(d, Func) and d.kind == "rule":
+            d.line = ln()
+            emit(f"RULE {d.name} FOR ({', '.join(d.locals_)});")
+            proto.append(f"alg rule {d.name} {d.line} 0")
+            for v in d.locals_:
+                proto.append(f"local {v}")
+            emit("WHERE")
+            for x in d.body:
+                x.line = ln()
+                emit(f"  {x.label} : {x.text()} > 0;")
+                x.proto(proto)
+            emit("END_RULE;")
         elif isinstance(d, Func):
             d.line = ln()
             ps = "; ".join(f"p{i} : INTEGER" for i in range(d.nparams))
             emit(f"FUNCTION {d.name}({ps}) : INTEGER;")
+            proto.append(f"alg function {d.name} {d.line} {d.nparams}")
+            for v in d.scope_names():
+                proto.append(f"local {v}")
+            if d.locals_:
+                emit("  LOCAL")
+                for v in d.locals_:
+                    emit(f"    {v} : INTEGER := 0;")
+                emit("  END_LOCAL;")
+            for x in d.body:
+                x.line = ln()
+                emit(f"  {d.locals_[0] if d.locals_ else 'p0'} := {x.text()};")
+                x.proto(proto)
             emit("  RETURN (p0);")
             emit("END_FUNCTION;")
-            proto.append(f"func {d.name} {d.line} {d.nparams}")
         elif isinstance(d, Entity):
             d.line = ln()
             head = f"ENTITY {d.name}"
@@ -328,12 +476,32 @@ def render_into(s, out, proto):
             for sb in subs_flat(d.subs_expr):
                 proto.append(f"sub {sb}")
             inv_started = False
+
+            def emit_derives():
+                if d.derives:
+                    emit("DERIVE")
+                for a in d.derives:
+                    a.line = a.expr.line = ln()
+                    emit(f"  {a.name} : {ty_text(a.ty)} := {a.expr.text()};")
+                    proto.append(f"attr {a.name} {a.line} {ty_proto(a.ty, a.line)}")
+                    a.expr.proto(proto)
+
+            derives_done = False
             for ai, a in enumerate(d.attrs):
                 if a.inverse_for is not None and not inv_started:
+                    emit_derives(); derives_done = True
                     emit("INVERSE"); inv_started = True
                 a.line = ln()
                 if a.inverse_for is None:
                     semi = "" if (drop and drop[1] == "attr" and drop[2] == ai) else ";"
+                    if a.bound is not None and not a.redecl_of:
+                        a.bound.line = a.line
+                        emit(f"  {a.name} : {'OPTIONAL ' if a.optional else ''}{ty_text(a.ty).replace('[1:?]', '[1:' + a.bound.text() + ']', 1)}{semi}")
+                        proto.append(f"attr {a.name} {a.line} {ty_proto(a.ty, a.line)}")
+                        a.bound.proto(proto)
+                        if semi == "":
+                            proto.append(f"syntax entity {d.name} {ln()}")
+                        continue
                     if a.redecl_of:
                         emit(f"  SELF\\{a.redecl_of}.{a.name} : {'OPTIONAL ' if a.optional else ''}{ty_text(a.ty)}{semi}")
                         proto.append(f"redecl {a.name} {a.line} {ty_proto(a.ty, a.line)} {a.redecl_of}")
@@ -345,6 +513,8 @@ def render_into(s, out, proto):
                 else:
                     emit(f"  {a.name} : {ty_text(a.ty)} FOR {a.inverse_for};")
                     proto.append(f"inv {a.name} {a.line} {ty_proto(a.ty, a.line)} {a.inverse_for} {a.line}")
+            if not derives_done:
+                emit_derives()
             if d.uniques:
                 emit("UNIQUE")
             for u in d.uniques:
@@ -1086,6 +1256,118 @@ def m_group_ref_on_non_entity(s, rng):
     return Fault("bad-group-reference", s, [("GROUP_REF_UNEXPECTED_TYPE", ["<expression>"]), ("ATTRIBUTE_REF_FROM_NON_ENTITY", [b.name])],
                  note=f"SELF.{a.name} is of type {ty_text(a.ty)}")
 
+
+# ---- faults in the expression contexts outside domain rules: DERIVE, aggregate bounds, constants, function bodies, global rules
+EXPR_CONTEXTS = ("derive", "bound", "constant", "function", "rule")
+
+
+def _ensure_expr(s, rng, ctx):
+    """(host, Expr, names that are legal bare identifiers there) of context `ctx`, creating a minimal valid one when the schema has
+    none"""
+    funcs = [f for f in s.funcs() if f.kind == "function"]
+    consts = [f for f in s.decls if isinstance(f, Func) and f.kind == "constant"]
+    if ctx in ("derive", "bound"):
+        ents = s.entities()
+        if not ents:
+            return None
+        have = [(e, (a.expr if ctx == "derive" else a.bound)) for e in ents for a in (e.derives if ctx == "derive" else e.attrs)
+                if (a.expr if ctx == "derive" else a.bound) is not None]
+        if have and rng.random() < 0.7:
+            e, x = rng.choice(have)
+        else:
+            e = rng.choice(ents)
+            if ctx == "derive":
+                a = Attr(f"d_{e.name}_m{len(e.derives)}", ("S", "INTEGER"))
+                a.expr = x = Expr(a.name)
+                e.derives.append(a)
+            else:
+                a = Attr(f"ab_{e.name}_m", ("A", "LIST [1:?] OF", ("S", "INTEGER")))
+                a.bound = x = Expr(a.name)
+                e.attrs.insert(len([y for y in e.attrs if y.inverse_for is None]), a)
+        return e, x
+    if ctx == "constant":
+        have = [(c, c.body[0]) for c in consts if c.body]
+        if have and rng.random() < 0.7:
+            return rng.choice(have)
+        c = Func(f"c_m{rng.randint(0, 99)}", 0, kind="constant")
+        c.body = [Expr("v")]
+        s.decls.insert(0, c)
+        return c, c.body[0]
+    if ctx == "function":
+        if not funcs:
+            return None
+        have = [(f, x) for f in funcs for x in f.body]
+        if have and rng.random() < 0.7:
+            return rng.choice(have)
+        f = rng.choice(funcs)
+        if not f.locals_:
+            f.locals_ = ["v0"]
+        x = Expr(f"s{len(f.body)}")
+        f.body.append(x)
+        return f, x
+    rules = [g for g in s.decls if isinstance(g, Func) and g.kind == "rule"]
+    have = [(g, x) for g in rules for x in g.body]
+    if have and rng.random() < 0.7:
+        return rng.choice(have)
+    ents = s.entities()
+    if not ents:
+        return None
+    g = Func(f"gr_m{rng.randint(0, 99)}", 0, kind="rule")
+    g.locals_ = [rng.choice(ents).name]
+    g.body = [Expr("w0")]
+    s.decls.append(g)
+    return g, g.body[0]
+
+
+def _where(ctx, host):
+    return {"derive": f"DERIVE initialiser in ENTITY {host.name}", "bound": f"aggregate bound in ENTITY {host.name}",
+            "constant": f"value of CONSTANT {host.name}", "function": f"body of FUNCTION {host.name}",
+            "rule": f"WHERE clause of RULE {host.name}"}[ctx]
+
+
+def make_undef_func_in(ctx):
+    def m(s, rng):
+        hx = _ensure_expr(s, rng, ctx)
+        if hx is None:
+            return None
+        host, x = hx
+        nm = f"nosuch_f{rng.randint(0, 99)}"
+        if x.fn is None or x.fn == "SIZEOF":
+            x.fn, x.argc = nm, max(1, min(2, len(x.refs)))
+        else:
+            x.fn = nm
+        return Fault("undefined-function", s, [("UNDEFINED_FUNC", [nm])], note=_where(ctx, host))
+    return m
+
+
+def make_undef_ref_in(ctx):
+    def m(s, rng):
+        hx = _ensure_expr(s, rng, ctx)
+        if hx is None:
+            return None
+        host, x = hx
+        nm, note = f"nosuch_v{rng.randint(0, 99)}", "fresh name"
+        if ctx in ("derive", "bound"):
+            near = _subtree_only_attrs(s, host)
+            if near and rng.random() < 0.6:
+                y, a = rng.choice(near)
+                nm, note = a.name, f"{a.name} is an attribute of {y.name} (subtype/sibling of {host.name}) only"
+        elif ctx == "function":
+            others = [v for f in s.funcs() if f is not host and f.kind == "function" for v in f.locals_ if v not in host.scope_names()]
+            if others and rng.random() < 0.5:
+                nm, note = rng.choice(others), "a local variable of another function"
+            elif rng.random() < 0.4 and f"p{host.nparams}" not in host.scope_names():
+                nm, note = f"p{host.nparams}", "one past the last parameter"
+        # the faulty identifier stands outside any argument list (the arguments of an undefined function are not resolved;
+        # here every function is defined, so position does not matter — it goes last)
+        x.refs.append(nm)
+        return Fault("undefined-reference", s, [("UNDEFINED", [nm])], note=f"{_where(ctx, host)}; {note}")
+    return m
+
+
+for _c in EXPR_CONTEXTS:
+    MUTATORS[f"undef_func_in_{_c}"] = make_undef_func_in(_c)
+    MUTATORS[f"undef_ref_in_{_c}"] = make_undef_ref_in(_c)
 
 MUTATORS["group_ref_on_non_entity"] = m_group_ref_on_non_entity
 MUTATORS["undef_bare_attr"] = m_undef_bare_attr
